@@ -8,7 +8,10 @@
 // stream; every reconnect draws its outcome from a script (serve the rest
 // after the presented id - possibly cut again -, transport error, 5xx, 404,
 // 400, 405). An independent strict SSE parser over the bytes actually served
-// says which events the client has received completely.
+// says which events the client has received completely. The same is done to
+// the standalone stream when it has something to say; the transport may be
+// told not to open that stream (resuming is another matter), and the session
+// may have been negotiated through server/discover instead of initialize.
 package mcpx
 
 import (
@@ -55,6 +58,18 @@ type c09Spec struct {
 	// InitCut: the answer to initialize is itself an SSE stream that is cut after its priming event; the result is to
 	// be had by resuming it (Last-Event-ID "init_0") like any other response
 	InitCut bool `json:"init_cut,omitempty"`
+	// NoGET: the transport is told not to open the standalone stream (DisableStandaloneSSE); a cut response
+	// stream is still to be resumed
+	NoGET bool `json:"disable_standalone_sse,omitempty"`
+	// Modern: the client asks for its default version and the server answers server/discover: the session runs
+	// 2026-07-28 (no initialize, no session id, no standalone stream); the server numbers its events all the same
+	Modern bool `json:"modern,omitempty"`
+	// SAMsgs: the standalone stream is not silent: the server has this many log notifications for it (SAIDs: its
+	// events carry ids). The i-th body of that stream is cut as SACuts[i] (never more cuts than MaxRetries); what
+	// has not been served completely follows on the stream the client opens next, the last one stays open.
+	SAMsgs int      `json:"sa_msgs,omitempty"`
+	SAIDs  bool     `json:"sa_ids,omitempty"`
+	SACuts []c09Cut `json:"sa_cuts,omitempty"`
 }
 
 func genC09(r *vh.Rand) c09Spec {
@@ -110,6 +125,14 @@ func genC09(r *vh.Rand) c09Spec {
 		}
 	}
 	s.InitCut = r.Chance(1, 6)
+	s.NoGET = r.Chance(1, 5)
+	s.Modern = r.Chance(1, 5)
+	if s.Standalone && r.Chance(2, 3) {
+		s.SAMsgs, s.SAIDs = r.Range(1, 4), r.Chance(1, 3)
+		for i, n := 0, r.Range(0, min(s.MaxRetries, 3)); i < n; i++ {
+			s.SACuts = append(s.SACuts, c09Cut{At: r.Intn(140 * s.SAMsgs), Kind: r.Choose("error", "eof")})
+		}
+	}
 	return s
 }
 
@@ -117,11 +140,12 @@ func TestVerifC09(t *testing.T) {
 	cfg := vh.Config{
 		Property: "C09",
 		Cases:    vh.Pick(2500, 150000),
-		Rule: "each case: the SDK streamable client calls a tool on a scripted server whose SSE response (optional priming event, K in 0..4 progress notifications, the response; ids on 9/10) is cut at a random byte offset by a read error or a clean EOF; up to 8 scripted reconnect outcomes {serve the rest after the presented id (cut again with p=1/2), transport error, 500, 502, 503, 404, 400}; MaxRetries in {1,2,3,5}. " +
+		Rule: "each case: the SDK streamable client calls a tool on a scripted server whose SSE response (optional priming event, K in 0..4 progress notifications, the response; ids on 9/10) is cut at a random byte offset by a read error or a clean EOF; up to 8 scripted reconnect outcomes {serve the rest after the presented id (cut again with p=1/2), transport error, 500, 502, 503, 404, 400}; MaxRetries in {1,2,3,5}; DisableStandaloneSSE on 1/5; on 1/5 the session is negotiated through server/discover (2026-07-28) and the server numbers its events all the same; on 1/6 the standalone stream carries 1..4 log notifications (with ids on 1/3), is cut up to min(MaxRetries,3) times and continued on the stream the client opens next. " +
 			"In the thorough tier every byte offset of the first body is enumerated. non-trivial: the first body was cut and >=1 reconnect was attempted. distinct = distinct (stream shape, cut offsets/kinds, reconnect outcomes)",
 		MinNontrivial: 100,
 		Assumptions: []string{"the scripted server replays exactly the events after the presented Last-Event-ID (unknown id: 400)", "success is demanded only when every run of consecutive no-progress attempts is shorter than MaxRetries and no fatal status (404/400) is drawn before the stream completes",
-			"the call must return within 30 virtual minutes in every case"},
+			"the call must return within 30 virtual minutes in every case",
+			"a session that answers a ping 3 virtual minutes after the call returned has had time to re-open a cut standalone stream (the scripted server accepts every such request at once) and to receive all the server had for it"},
 	}
 	vh.Run(t, cfg, func(c *vh.Case) {
 		spec := genC09(c.R)
@@ -145,6 +169,7 @@ type c09Body struct {
 	closed chan struct{}
 	once   sync.Once
 	onRead func([]byte) // bytes actually handed to the client
+	hold   bool         // after the last byte the stream stays open and silent until the client goes away
 }
 
 func (b *c09Body) Read(p []byte) (int, error) {
@@ -165,6 +190,14 @@ func (b *c09Body) Read(p []byte) (int, error) {
 	n, err := b.r.Read(p)
 	if n > 0 && b.onRead != nil {
 		b.onRead(p[:n])
+	}
+	if err == io.EOF && n == 0 && b.hold {
+		select {
+		case <-b.ctx.Done():
+			return 0, b.ctx.Err()
+		case <-b.closed:
+			return 0, errors.New("verif: read on closed body")
+		}
 	}
 	if err == io.EOF {
 		if b.kind == "error" {
@@ -197,6 +230,12 @@ type c09Server struct {
 	// the response to initialize, once asked for (InitCut)
 	initResp string
 	tok      any
+	// the standalone stream (SAMsgs > 0): wire text per event, the number of events served completely so far,
+	// bytes actually served per body, the Last-Event-ID presented for each body
+	saText   []string
+	saNext   int
+	saServed [][]byte
+	saLeids  []string
 }
 
 func (s *c09Server) ctype() string {
@@ -276,6 +315,43 @@ func (s *c09Server) serve(ctx context.Context, from int, cut c09Cut, pause time.
 	}}
 }
 
+// serveStandalone serves the next body of a standalone stream that has something to say: the events after the
+// presented id (without ids: those not yet served completely), cut as scripted or else held open.
+func (s *c09Server) serveStandalone(ctx context.Context, leid string) io.ReadCloser {
+	if s.saText == nil {
+		for j := 1; j <= s.spec.SAMsgs; j++ {
+			t := "event: message\n"
+			if s.spec.SAIDs {
+				t += fmt.Sprintf("id: sa_%d\n", j)
+			}
+			s.saText = append(s.saText, t+fmt.Sprintf(`data: {"jsonrpc":"2.0","method":"notifications/message","params":{"level":"info","logger":"standalone","data":"sa%d-%s"}}`, j, strings.Repeat("y", 10+j))+"\n\n")
+		}
+	}
+	from := s.saNext
+	if leid != "" {
+		fmt.Sscanf(leid, "sa_%d", &from)
+		from = min(max(from, 0), len(s.saText))
+	}
+	b := []byte(strings.Join(s.saText[from:], ""))
+	kind, hold := "eof", true
+	if bi := len(s.saServed); bi < len(s.spec.SACuts) && s.spec.SACuts[bi].At < len(b) {
+		b, kind, hold = b[:s.spec.SACuts[bi].At], s.spec.SACuts[bi].Kind, false
+	}
+	for n := 0; from < len(s.saText) && n+len(s.saText[from]) <= len(b); from++ {
+		n += len(s.saText[from])
+	}
+	s.saNext = max(s.saNext, from)
+	bi := len(s.saServed)
+	s.saServed = append(s.saServed, []byte{})
+	s.saLeids = append(s.saLeids, leid)
+	s.c.Log.Add("standalone-body-served", "leid", leid, "bytes", len(b), "end", kind, "held_open", hold, "t", s.c.Log.Now().String())
+	return &c09Body{r: bytes.NewReader(b), kind: kind, hold: hold, ctx: ctx, closed: make(chan struct{}), onRead: func(p []byte) {
+		s.mu.Lock()
+		s.saServed[bi] = append(s.saServed[bi], p...)
+		s.mu.Unlock()
+	}}
+}
+
 func (s *c09Server) RoundTrip(req *http.Request) (*http.Response, error) {
 	if err := req.Context().Err(); err != nil {
 		return nil, err
@@ -287,6 +363,9 @@ func (s *c09Server) RoundTrip(req *http.Request) (*http.Response, error) {
 		return s.resp(req, 204, "", http.NoBody, nil), nil
 	case "GET":
 		leid := req.Header.Get("Last-Event-ID")
+		if s.spec.Standalone && s.spec.SAMsgs > 0 && (leid == "" || strings.HasPrefix(leid, "sa_")) {
+			return s.resp(req, 200, "text/event-stream", s.serveStandalone(req.Context(), leid), nil), nil
+		}
 		if leid == "" {
 			if s.spec.Standalone {
 				// a standalone stream that stays open and silent; it ends when the client's request does
@@ -375,6 +454,11 @@ func (s *c09Server) RoundTrip(req *http.Request) (*http.Response, error) {
 	}
 	json.Unmarshal(body, &m)
 	switch {
+	case m.Method == "server/discover" && s.spec.Modern:
+		s.c.Log.Add("discovered")
+		return s.resp(req, 200, "application/json", io.NopCloser(strings.NewReader(fmt.Sprintf(`{"jsonrpc":"2.0","id":%s,"result":{"resultType":"complete","supportedVersions":["2026-07-28"],"capabilities":{"tools":{"listChanged":true},"logging":{}},"_meta":{"io.modelcontextprotocol/serverInfo":{"name":"scripted","version":"0"}}}}`, m.ID))), nil), nil
+	case m.Method == "server/discover":
+		return s.resp(req, 200, "application/json", io.NopCloser(strings.NewReader(fmt.Sprintf(`{"jsonrpc":"2.0","id":%s,"error":{"code":-32601,"message":"method not found"}}`, m.ID))), nil), nil
 	case m.Method == "initialize":
 		hdr := map[string]string{"Mcp-Session-Id": "sess-1"}
 		if s.spec.NoSID {
@@ -399,7 +483,7 @@ func runC09(c *vh.Case, spec c09Spec) {
 	ctx := context.Background()
 	srv := &c09Server{c: c, spec: spec}
 	var pmu sync.Mutex
-	var progress []string
+	var progress, logs []string
 	client := mcp.NewClient(&mcp.Implementation{Name: "c", Version: "1"}, &mcp.ClientOptions{
 		ProgressNotificationHandler: func(_ context.Context, req *mcp.ProgressNotificationClientRequest) {
 			pmu.Lock()
@@ -407,22 +491,38 @@ func runC09(c *vh.Case, spec c09Spec) {
 			pmu.Unlock()
 			log.Add("delivered", "msg", req.Params.Message[:2])
 		},
+		LoggingMessageHandler: func(_ context.Context, req *mcp.LoggingMessageRequest) {
+			pmu.Lock()
+			logs = append(logs, fmt.Sprint(req.Params.Data))
+			pmu.Unlock()
+			log.Add("delivered-standalone", "msg", fmt.Sprint(req.Params.Data))
+		},
 	})
-	cs, err := client.Connect(ctx, &mcp.StreamableClientTransport{Endpoint: "http://example.test/mcp", HTTPClient: &http.Client{Transport: srv}, MaxRetries: spec.MaxRetries}, &mcp.ClientSessionOptions{ProtocolVersion: "2025-11-25"})
+	version := "2025-11-25"
+	if spec.Modern {
+		version = "" // the client's default: server/discover first
+	}
+	cs, err := client.Connect(ctx, &mcp.StreamableClientTransport{Endpoint: "http://example.test/mcp", HTTPClient: &http.Client{Transport: srv}, MaxRetries: spec.MaxRetries, DisableStandaloneSSE: spec.NoGET}, &mcp.ClientSessionOptions{ProtocolVersion: version})
+	initCut := spec.InitCut && !spec.Modern // a 2026-07-28 session is not initialized
 	if err != nil {
-		if spec.InitCut && spec.MaxRetries >= 0 {
+		if initCut && spec.MaxRetries >= 0 {
 			c.Violate("initialize-not-resumed", "the answer to initialize was an SSE stream cut after its priming event (id init_0); Connect failed with %v instead of resuming it (resume requests seen: %v)", err, srv.leids)
 			return
 		}
-		if spec.InitCut {
+		if initCut {
 			c.Count("initialize_cut_with_reconnecting_disabled", 1) // nothing may be resumed then: failing is right
 			return
 		}
 		c.Inconclusive("connect: %v", err)
 		return
 	}
-	if spec.InitCut {
+	if initCut {
 		c.Count("initialize_answers_resumed", 1)
+	}
+	if v := cs.InitializeResult().ProtocolVersion; spec.Modern && v != "2026-07-28" {
+		c.Inconclusive("the server answered server/discover with 2026-07-28, the session runs %q", v)
+		cs.Close()
+		return
 	}
 	type outcome struct {
 		text string
@@ -448,10 +548,13 @@ func runC09(c *vh.Case, spec c09Spec) {
 	recAtReturn := srv.nRec
 	srv.mu.Unlock()
 	var pingErr error
-	if !hung && out.err == nil {
+	pinged := false
+	if !hung && (out.err == nil || spec.SAMsgs > 0) {
 		// the stream is complete: nothing may try to resume it any more, and the session stays usable
+		// (with a talking standalone stream, whatever became of the call: is the session still in working order?)
 		time.Sleep(3 * time.Minute)
 		pingErr = cs.Ping(ctx, nil)
+		pinged = true
 	}
 	cs.Close()
 	time.Sleep(40 * time.Second)
@@ -643,6 +746,57 @@ func runC09(c *vh.Case, spec c09Spec) {
 		key := "resumable-call-failed"
 		c.Violate(key, "the stream was resumable within the retry budget (MaxRetries %d, reconnect outcomes consumed %v, no run of failures reached the budget) but the call failed: %v", spec.MaxRetries, spec.Reconnects[:min(srv.nRec, len(spec.Reconnects))], out.err)
 		return
+	}
+	// the standalone stream: (b) resumed with the id of the last event received completely, (a)/(d) exactly once, in
+	// order, nothing but the server's messages; and a session that still works has re-opened the stream after every
+	// cut and got everything the server had for it
+	if len(srv.saServed) > 0 {
+		var want, got []string
+		for j := 1; j <= spec.SAMsgs; j++ {
+			want = append(want, fmt.Sprintf("sa%d-%s", j, strings.Repeat("y", 10+j)))
+		}
+		cur := ""
+		for bi, b := range srv.saServed {
+			if srv.saLeids[bi] != cur {
+				c.Violate("wrong-last-event-id/standalone", "standalone stream %d was opened with Last-Event-ID %q, but the last event the client had received completely on that stream was %q", bi, srv.saLeids[bi], cur)
+				return
+			}
+			for _, e := range vhm.ParseSSEBytes(b) {
+				if e.ID != "" {
+					cur = e.ID
+				}
+				var m struct {
+					Params struct {
+						Data string `json:"data"`
+					} `json:"params"`
+				}
+				if json.Unmarshal([]byte(e.Data), &m) == nil && m.Params.Data != "" {
+					got = append(got, m.Params.Data)
+				}
+			}
+		}
+		j := 0
+		for _, l := range logs {
+			for j < len(want) && want[j] != l {
+				j++
+			}
+			if j == len(want) {
+				c.Violate("delivery-duplicated-reordered-or-truncated/standalone", "client delivered %v from the standalone stream; the server's messages are %v (one was delivered twice, out of order, or is not a message of the stream)", logs, want)
+				return
+			}
+			j++
+		}
+		if pinged && pingErr == nil && len(logs) < len(want) {
+			last := srv.saServed[len(srv.saServed)-1]
+			if len(got) < len(want) {
+				c.Violate("standalone-stream-abandoned", "the standalone stream was cut %d time(s) (MaxRetries %d), the last body ended after %d bytes at least 3 minutes ago and the client has not opened the stream again; the session answers a ping as if nothing had happened, so %d message(s) the server still has for it are neither delivered nor is any error reported (delivered: %v)", len(srv.saServed), spec.MaxRetries, len(last), len(want)-len(got), logs)
+				return
+			}
+			c.Violate("message-lost/standalone", "the client received %v completely on the standalone stream and the session still works, but it delivered only %v", got, logs)
+			return
+		}
+		c.Count("standalone_bodies_served", len(srv.saServed))
+		c.Count("standalone_messages_delivered", len(logs))
 	}
 	_ = maxConsecutive
 	_ = cursor
